@@ -188,3 +188,12 @@ func hCountKeys(m *MemDb) int {
 	}
 	return n
 }
+
+// hExecPerm: like hExec, with every map iteration inside the command taking a nondeterministic order
+// (all permutations for <= 3 entries, rotations/reversals beyond).
+func hExecPerm(m *MemDb, parts ...[]byte) rv {
+	vfOpt("maporder", 1)
+	r := hExec(m, parts...)
+	vfOpt("maporder", 0)
+	return r
+}
